@@ -93,8 +93,8 @@ CHECKS["C12"] = hist_check("C12",
     "cases = histories that leave pages empty, with hole patterns (every 2nd/3rd/4th/7th, first/last only), exactly full, single-block, with interior "
     "aligned blocks and helper-thread frees (followed by a non-forced collect), interleaved with mi_heap_visit_blocks walks of every heap, one third with "
     "a generated stop index. Oracle: every model block homed in the heap lies in exactly one visited range that encloses its usable bytes, no range holds "
-    "two live blocks, unmatched ranges are heap descriptors in the backing heap (exact count), per-area used == blocks reported in that area, early stop "
-    "makes exactly k block calls and returns false. Non-trivial = a walk covered an area with holes and a full/single-block area and >= 64 blocks were "
+    "two live blocks, unmatched ranges are heap descriptors in the backing heap (exact count), per-area used == blocks reported in that area; an early stop (false returned at the k-th block call or at the k-th area call, heap walks and abandoned walks) is followed by "
+    "no further visitor call and a false result, and takes nothing away from the walk that follows. Non-trivial = a walk covered an area with holes and a full/single-block area and >= 64 blocks were "
     "visited. Distinct = hash of the IR text.",
     [R("rel", 24000, 400000, 2.0), R("dbg", 8000, 100000, 1.0), R("sec", 10000, 100000, 1.0)])
 
@@ -138,7 +138,8 @@ CHECKS["C07"] = hist_check("C07",
     "strided beyond) x {fail once, fail from k on} is one case in a fresh process. Oracle: no crash/assert; every API call returns NULL or a block that passes the C01 checks "
     "(a refused commit really leaves PROT_NONE, so handing it out faults); live blocks keep their contents; after the shim grants requests again a fixed recovery workload over "
     "all size classes, a new heap and a fresh thread must succeed completely; after free-all + forced collect the heap reports no used block and no non-arena region remains "
-    "mapped (minus regions whose munmap the shim refused). Non-trivial = the armed fault was hit and at least one API call returned NULL because of it. Distinct = hash of the IR text.",
+    "mapped (minus regions whose munmap the shim refused), nor any additional mapping of the size of a thread's metadata (that size is learned by behaviour in a throw-away child: the small "
+    "mapping that appears once a thread has run and disappears at mi_collect(true)). Non-trivial = the armed fault was hit and at least one API call returned NULL because of it. Distinct = hash of the IR text.",
     [R("rel", 1600000, 12000000, 2.0), R("sec", 800000, 6000000, 1.0)], level="fault_enumeration",
     assumptions=["debug build not used: mi_os_decommit_ex asserts that the OS call cannot fail (debug-only statement)", "faults are injected at the libc call boundary of src/prim/unix/prim.c (mmap/munmap/mprotect/madvise)"])
 
